@@ -42,6 +42,26 @@ static void fillGM(Toks& t, GaussianMixture& g, long n, long k) {
     g.covariance() = t.mat(n, n * k);
 }
 
+// weights of the belief passed in (the properties quantify over every belief: the update of a component
+// may not depend on its weight): 0 default (uniform), 1 first exactly 0, 2 last exactly 0, 3 all exactly 0,
+// 4 un-normalised 1,2,3,.., 5 tiny (1e-300) except the first, 6 one negative, 7 first one 1 and the rest 0
+static void setInW(GaussianMixture& g, long mode) {
+    long k = g.components;
+    if (mode == 0) return;
+    if (mode < 0 || mode > 7) throw vh::BadArgs("wmode");
+    for (long i = 0; i < k; ++i) {
+        double w = 1.0 / double(k);
+        if (mode == 1) w = (i == 0) ? 0.0 : 1.0 / double(k > 1 ? k - 1 : 1);
+        if (mode == 2) w = (i == k - 1) ? 0.0 : 1.0 / double(k > 1 ? k - 1 : 1);
+        if (mode == 3) w = 0.0;
+        if (mode == 4) w = double(i + 1);
+        if (mode == 5) w = (i == 0) ? 1.0 : 1e-300;
+        if (mode == 6) w = (i == k - 1) ? -0.25 : 1.25 / double(k > 1 ? k - 1 : 1);
+        if (mode == 7) w = (i == 0) ? 1.0 : 0.0;
+        g.weight()(i) = w;
+    }
+}
+
 static void outGM(Out& o, const GaussianMixture& g) {
     o.m(g.mean()); o.m(g.covariance()); o.m(g.weight());
 }
@@ -166,7 +186,7 @@ struct VMeas : public LinearMeasurementModel {
 
 // One KFPrediction over a time-varying model; before each predict() a history of skip commands that
 // ends with everything switched off again:
-//   kfpv n exo ncalls { F Q [G g] nskip {name status}* k means covs outw }*      name: 0 prediction 1 state 2 exogenous
+//   kfpv n exo ncalls { hand F Q [G g] nskip {name status}* wmode k means covs outw }*      name: 0 prediction 1 state 2 exogenous
 static std::string kfpv(Toks& t) {
     long n = t.nat(); bool exo = t.flag();
     VState* vs = new VState(n); VExo* ve = nullptr;
@@ -190,9 +210,11 @@ static std::string kfpv(Toks& t) {
         if (exo) { ve->G_ = t.mat(n, n); ve->g_ = t.vec(n); }
         long nskip = t.nat();
         for (long q = 0; q < nskip; ++q) { long nm = t.nat(); bool st = t.flag(); if (nm < 0 || nm > 2) throw vh::BadArgs("skipname"); p.skip(names[nm], st); }
+        long wmode = t.nat();
         long k = t.nat();
         GaussianMixture prev(k, n), pred(k, n);
         fillGM(t, prev, n, k);
+        setInW(prev, wmode);
         pred.weight() = t.vec(k);
         pred.mean().setConstant(12345.0); pred.covariance().setConstant(-54321.0);
         MatrixXd m0 = prev.mean(), c0 = prev.covariance(), w0 = prev.weight();
@@ -205,7 +227,7 @@ static std::string kfpv(Toks& t) {
 }
 
 // One KFCorrection over a time-varying model; the likelihood is queried nlik times after each call:
-//   kfcv n m ncalls { H R y nlik k means covs outw }*
+//   kfcv n m ncalls { hand nskip skip* H R y nlik wmode k means covs outw }*
 static std::string kfcv(Toks& t) {
     long n = t.nat(), m = t.nat();
     VMeas* vm = new VMeas; vm->H_ = MatrixXd::Zero(m, n); vm->R_ = MatrixXd::Identity(m, m); vm->y_ = VectorXd::Zero(m);
@@ -221,9 +243,10 @@ static std::string kfcv(Toks& t) {
         long nskip = t.nat();     // skip(bool) commands; the generator ends every history with skip(false)
         for (long q = 0; q < nskip; ++q) c.skip(t.flag());
         vm->H_ = t.mat(m, n); vm->R_ = t.mat(m, m); vm->y_ = t.vec(m);
-        long nlik = t.nat(), k = t.nat();
+        long nlik = t.nat(), wmode = t.nat(), k = t.nat();
         GaussianMixture pred(k, n), corr(k, n);
         fillGM(t, pred, n, k);
+        setInW(pred, wmode);
         corr.weight() = t.vec(k);
         corr.mean().setConstant(12345.0); corr.covariance().setConstant(-54321.0);
         MatrixXd m0 = pred.mean(), c0 = pred.covariance(), w0 = pred.weight();
